@@ -6911,27 +6911,37 @@ impl RelationalEngine {
             .or_insert_with(|| AtomicU64::new(0))
             .fetch_max(row_id, Ordering::Relaxed);
 
-        // Update indexes
+        // Update indexes. An update can be refused half-way (ordered-index budget, storage
+        // error): the statement then takes the row and the entries made so far out again, so
+        // that it leaves nothing behind that no undo entry covers.
         let indexed_columns = self.get_table_indexes(table);
-        for col in &indexed_columns {
-            if col == "_id" {
-                self.index_add(table, col, &Value::Int(row_id as i64), row_id)?;
-            } else {
-                // An omitted key of a nullable column is NULL and is indexed as such.
-                let value = values.get(col).unwrap_or(&Value::Null);
-                self.index_add(table, col, value, row_id)?;
-            }
-        }
-
         let btree_columns = self.get_table_btree_indexes(table);
-        for col in &btree_columns {
+        let key_of = |col: &String| {
             if col == "_id" {
-                self.btree_index_add(table, col, &Value::Int(row_id as i64), row_id)?;
+                Value::Int(row_id as i64)
             } else {
                 // An omitted key of a nullable column is NULL and is indexed as such.
-                let value = values.get(col).unwrap_or(&Value::Null);
-                self.btree_index_add(table, col, value, row_id)?;
+                values.get(col).cloned().unwrap_or(Value::Null)
             }
+        };
+        let add_entries = || -> Result<()> {
+            for col in &indexed_columns {
+                self.index_add(table, col, &key_of(col), row_id)?;
+            }
+            for col in &btree_columns {
+                self.btree_index_add(table, col, &key_of(col), row_id)?;
+            }
+            Ok(())
+        };
+        if let Err(e) = add_entries() {
+            for col in &indexed_columns {
+                let _ = self.index_remove(table, col, &key_of(col), row_id);
+            }
+            for col in &btree_columns {
+                let _ = self.btree_index_remove(table, col, &key_of(col), row_id);
+            }
+            let _ = self.slab().delete(table, slab_row_id);
+            return Err(e);
         }
 
         // Capture index entries for rollback (must happen AFTER index updates)
@@ -7066,41 +7076,48 @@ impl RelationalEngine {
             }
 
             // Record undo entry BEFORE making changes
+            let undo = UndoEntry::UpdatedRow {
+                table: table.to_string(),
+                slab_row_id: *slab_row_id,
+                row_id: row.id,
+                old_values: old_slab_values.clone(),
+                index_changes,
+            };
             self.note_index_epoch(tx_id);
-            self.tx_manager.record_undo(
-                tx_id,
-                UndoEntry::UpdatedRow {
-                    table: table.to_string(),
-                    slab_row_id: *slab_row_id,
-                    row_id: row.id,
-                    old_values: old_slab_values.clone(),
-                    index_changes,
-                },
-            );
+            self.tx_manager.record_undo(tx_id, undo.clone());
 
-            // Update indexes
-            for col in &indexed_columns {
-                if let Some(new_value) = updates.get(col) {
-                    if let Some(old_value) = row.get_with_id(col) {
-                        self.index_remove(table, col, &old_value, row.id)?;
+            let change_row = || -> Result<()> {
+                // Update indexes
+                for col in &indexed_columns {
+                    if let Some(new_value) = updates.get(col) {
+                        if let Some(old_value) = row.get_with_id(col) {
+                            self.index_remove(table, col, &old_value, row.id)?;
+                        }
+                        self.index_add(table, col, new_value, row.id)?;
                     }
-                    self.index_add(table, col, new_value, row.id)?;
                 }
-            }
 
-            for col in &btree_columns {
-                if let Some(new_value) = updates.get(col) {
-                    if let Some(old_value) = row.get_with_id(col) {
-                        self.btree_index_remove(table, col, &old_value, row.id)?;
+                for col in &btree_columns {
+                    if let Some(new_value) = updates.get(col) {
+                        if let Some(old_value) = row.get_with_id(col) {
+                            self.btree_index_remove(table, col, &old_value, row.id)?;
+                        }
+                        self.btree_index_add(table, col, new_value, row.id)?;
                     }
-                    self.btree_index_add(table, col, new_value, row.id)?;
                 }
-            }
 
-            // Update the row in slab
-            self.slab()
-                .update_row(table, *slab_row_id, &slab_updates)
-                .map_err(|e| RelationalError::StorageError(e.to_string()))?;
+                // Update the row in slab
+                self.slab()
+                    .update_row(table, *slab_row_id, &slab_updates)
+                    .map_err(|e| RelationalError::StorageError(e.to_string()))
+            };
+            if let Err(e) = change_row() {
+                // Refused half-way (ordered-index budget, storage error): put this row back
+                // at once. The recorded entry stays an exact inverse (applying it again at
+                // rollback changes nothing), and later statements see a consistent row.
+                let _ = self.apply_undo_entry(&undo);
+                return Err(e);
+            }
         }
 
         Ok(matching_rows.len())
